@@ -119,6 +119,8 @@ class Mk:
             return (self.bytes(name + '0'), self.bytes(name + '1'), self.bytes(name + '2'))
         if desc == 'opaque':
             return self.opaque(name)
+        if isinstance(desc, tuple) and desc[0] == 'tuple':
+            return tuple(self.of(d, f'{name}{i}') for i, d in enumerate(desc[1:]))
         if isinstance(desc, tuple) and desc[0] == 'const':
             return desc[1]
         raise Unsupported(f'type descriptor {desc!r}')
